@@ -380,23 +380,34 @@ def strip_fast_verify(s):
             break
         out += s[i:m.start()]
         j = m.end()
-        # guarded thing: up to the matching `}` of the first `{`, or to the first `;` if it comes first
-        semi = s.find(";", j)
-        brace = s.find("{", j)
-        if brace != -1 and (semi == -1 or brace < semi):
-            depth, q = 1, brace + 1
-            while depth and q < len(s):
-                if s[q] == "{":
-                    depth += 1
-                elif s[q] == "}":
-                    depth -= 1
-                q += 1
-            # `use {...};` keeps a trailing semicolon
-            if q < len(s) and s[q] == ";":
-                q += 1
-            i = q
-        else:
-            i = semi + 1
+        # guarded thing: up to the matching `}` of the first top-level `{`, or to the first top-level `;`
+        # (a `;` inside [..] or (..), e.g. in an array type of a signature, does not end the item)
+        q = j
+        depth = 0
+        end = None
+        while q < len(s):
+            ch = s[q]
+            if ch in "([":
+                depth += 1
+            elif ch in ")]":
+                depth -= 1
+            elif ch == ";" and depth == 0:
+                end = q + 1
+                break
+            elif ch == "{" and depth == 0:
+                d2, q2 = 1, q + 1
+                while d2 and q2 < len(s):
+                    if s[q2] == "{":
+                        d2 += 1
+                    elif s[q2] == "}":
+                        d2 -= 1
+                    q2 += 1
+                if q2 < len(s) and s[q2] == ";":
+                    q2 += 1
+                end = q2
+                break
+            q += 1
+        i = end if end is not None else len(s)
     return out
 
 
